@@ -14,14 +14,14 @@
 (*   attr \in {"none","source","not_source","backtrace","not_backtrace",   *)
 (*             "ignore","source_backtrace"}                                *)
 (*   name \in {"source","backtrace","other"}   (meaningful when named)     *)
-(*   ty   \in {"err","generic","box","bt"}     ("bt": a type whose path    *)
+(*   ty   \in {"err","generic","assoc","box","bt"} ("bt": a type whose path *)
 (*             ends in `Backtrace`)                                        *)
 (***************************************************************************)
 EXTENDS Naturals, Sequences, FiniteSets, TLC
 
 Attrs == {"none", "source", "not_source", "backtrace", "not_backtrace", "ignore", "source_backtrace"}
 Names == {"source", "backtrace", "other"}
-Types == {"err", "generic", "box", "bt"}
+Types == {"err", "generic", "assoc", "box", "bt"}     \* "assoc": `T::Assoc` of a type parameter
 
 SrcFlag(a) == CASE a \in {"source", "source_backtrace"} -> "yes" [] a = "not_source" -> "no" [] OTHER -> "unset"
 BtFlag(a)  == CASE a \in {"backtrace", "source_backtrace"} -> "yes" [] a = "not_backtrace" -> "no" [] OTHER -> "unset"
